@@ -125,7 +125,27 @@ Fixpoint partial (en : env) (e : expr) {struct e} : pres :=
   | EHasTag a b => bin a b EHasTag
   | ELike a p => un a (fun x => ELike x p)
   | EIs a ty => un a (fun x => EIs x ty)
-  | EIsIn a ty b => bin a b (fun x y => EIsIn x ty y)
+  | EIsIn a ty b =>
+      (* partialIsIn: not strict in b — when the type test fails the result is false and b is never evaluated *)
+      let mk := fun l : list expr => EIsIn (nth 0 l a) ty (nth 1 l b) in
+      let finish (lft : expr) :=
+          match embed (partial en b) b with
+          | None => PIgnore
+          | Some rgt => PNode (EIsIn lft ty rgt)
+          end in
+      match partial en a with
+      | PVar lft => finish lft
+      | PIgnore => PIgnore
+      | PErr k => PErr k
+      | PNode lft =>
+          match lft with
+          | ELit (VEntity t _) =>
+              if negb (str_eqb t ty) then PNode (ELit (VBool false))
+              else try_partial false [a; b] [partial en a; partial en b] mk ev
+          | ELit _ => try_partial false [a; b] [partial en a; partial en b] mk ev
+          | _ => finish lft
+          end
+      end
   | ECall n args => try_partial false args (List.map (partial en) args) (fun l => ECall n l) ev
   | ERecord kvs => try_partial false (List.map snd kvs) (List.map (fun kv => partial en (snd kv)) kvs)
                      (fun l => ERecord (combine (List.map fst kvs) l)) ev
